@@ -33,7 +33,8 @@ CLAIMED = {
         "for them the deciding work is the differential run against Spec/Sem.v. Sem shares value-level operations with the model.",
         "Coq compiler-correctness theorems (expressions; simulation with printed output for the LET/PRINT/GOTO/ON..GOTO/END fragment) + model/implementation/reference-semantics differential check"),
     "C02": entry(
-        "the precedence tables are the manual's 13 levels; result types of every operator (wider operand type for + - *, at least Single for /, "
+        "the precedence tables are the manual's 13 levels, and they are the tables tools/tables.py regenerates from src/lang/parse.rs on every run "
+        "(Proofs/SourceTables.v); result types of every operator (wider operand type for + - *, at least Single for /, "
         "Integer for \\ MOD and the logical operators, 0 or -1 for relational ones); the only error of + - * on numbers is OVERFLOW between two "
         "Integers; conversion on assignment fails only with OVERFLOW / TYPE MISMATCH / STRING TOO LONG and otherwise has the target type; "
         "compiled expression code computes what the reference semantics prescribes; the expression parser builds the tree the table prescribes: for "
@@ -200,7 +201,9 @@ CLAIMED = {
         "Coq refinement to an ordered map + reachable-state invariant + history-based differential check with a reference map"),
     "C16": entry(
         "? and ' scan to the PRINT and REM tokens; the operator and GO TO / GO SUB merges hold for any amount of blank space, and for every pair of operator characters "
-        "the merge with blanks between them is the merge without (one table, not two: the defect fixed by 638b3f3); the whole scanner -- line-number "
+        "the merge with blanks between them is the merge without (one table, not two: the defect fixed by 638b3f3); the reserved-word table (with its order), the "
+        "single-character tokens and the listed spellings of words and operators are the lists tools/tables.py regenerates from src/lang/token.rs on every run "
+        "(Proofs/SourceTables.v); the whole scanner -- line-number "
         "prefix, numbers with their exponent letters, & literals, words, punctuation, post passes -- returns the same line number and tokens for any two "
         "texts that differ only in letter case, provided no string literal or remark is among the tokens (Props/C16.v, Proofs/CaseFold.v, CaseLex.v).",
         "every line of generated programs rendered in random spellings (case, ?, ', GO TO, GO SUB, dropped LET, =< =>, blanks inside relational operators, "
@@ -230,7 +233,8 @@ CLAIMED = {
         "65536th entry; SWAP leaves exactly two values; for compiled programs of LET, PRINT, GOTO, ON..GOTO and END every completed statement leaves the value "
         "stack exactly as long as it found it (from the C01 simulation); every built-in call that completes replaces exactly the entries it owns -- as many as the "
         "arity table the code generator consults says, the count literal included when the arity is a range -- by one result and touches nothing beneath, for all "
-        "33 names (Props/C18.v, Proofs/StackBound.v, Flow3.v, CallWidth.v).",
+        "33 names, and that table is the one tools/tables.py regenerates from Function::opcode_and_arity on every run (Props/C18.v, Proofs/StackBound.v, "
+        "Flow3.v, CallWidth.v, SourceTables.v).",
         "every statement kind 70000 times in a loop (crate) and 2500 times (model and crate); GOSUB / FN recursion, abandoned frames, 65537 variables / "
         "DATA constants / instructions must end in OUT OF MEMORY with the session usable; zeroing at the pool limit (also through converting assignments) "
         "must free slots.",
